@@ -231,7 +231,11 @@ func VerifC04_TriggerPoolConcurrency() {
 
 // ---- continuous pool (users mode) -----------------------------------------------------------------
 
-func c02Continuous(workers int, maxLimit uint64) {
+func c02Continuous(workers int, maxLimit uint64) { c02ContinuousEnv(workers, maxLimit, false) }
+
+// earlyCancel: the parent context is cancelled by an environment thread at an arbitrary moment, also BEFORE or
+// DURING the start-up of the workers (otherwise right after Start returned)
+func c02ContinuousEnv(workers int, maxLimit uint64, earlyCancel bool) {
 	limit := zz.Uint64("limit")
 	zz.Assume(limit <= maxLimit)
 	as := NewActiveScenario(&scenarios.Scenario{Name: "scn"}, &metrics.Metrics{}, &progress.Stats{}, nil, nil)
@@ -239,7 +243,13 @@ func c02Continuous(workers int, maxLimit uint64) {
 	pool := m.NewContinuousPool(workers)
 	c02Pool = &TriggerPool{numWorkers: workers, iterationStatePool: pool.iterationStatePool}
 	c02FirstTid = 1
+	if earlyCancel {
+		c02FirstTid = 2 // model thread 1 is the cancelling environment thread
+	}
 	ctx, cancel := context.WithCancel(context.Background())
+	if earlyCancel {
+		go func() { cancel() }()
+	}
 	pool.Start(ctx)
 	cancel() // at an arbitrary moment relative to the workers
 	<-m.WaitForCompletion()
@@ -273,6 +283,20 @@ func VerifC03_ContinuousPool() { c02Continuous(2, 3) }
 //verif:replace (*sync.Cond).Wait c02CondWait
 //verif:replace (*$M/internal/workers.PoolManager).NextIteration c02NextIteration
 func VerifC04_ContinuousPool() { c02Continuous(2, 0) }
+
+// VerifC05_ContinuousPoolShutdown: users mode under C05: 2 workers, the context cancelled at ANY moment - before the
+// pool starts, while its workers are lining up at the start barrier, or later - with the DEADLOCK query: there is no
+// reachable state in which a worker (or the caller waiting for completion) is blocked forever: the pool always
+// terminates and its completion is always signalled.
+//
+//verif:conc
+//verif:unroll 3
+//verif:timeout 600
+//verif:deadlock 1
+//verif:replace (*$M/internal/workers.ActiveScenario).Run c02RunFn
+//verif:replace (*sync.Cond).Wait c02CondWait
+//verif:replace (*$M/internal/workers.PoolManager).NextIteration c02NextIteration
+func VerifC05_ContinuousPoolShutdown() { c02ContinuousEnv(2, 1, true) }
 
 // VerifC05_PoolShutdown: the trigger-pool scenario under C05: after WaitForCompletion fired, every goroutine of the
 // pool (workers AND the goroutine that drains and records dropped work) has finished - nothing is recorded and no
